@@ -92,6 +92,19 @@ def overriding_pairs(r):
         out.append([a, b])
         out.append([b, a])
         out.append([a, b, {"services": {"s": {"tags": ["c"], "calls": [["WithY", [], True]]}}}])
+    for b in [{"meta": {"container_type": "B"}}, {"meta": {"container_constructor": "NewB"}}, {"meta": {"container_type": "B", "container_constructor": "NewB"}},
+              {"services": {"s": {"tags": ["a"]}}}, {"services": {"s": {"tags": [{"name": "a", "priority": 5}]}}}, {"services": {"s": {"calls": [["SetX", [1]]]}}},
+              {"decorators": [{"tag": "a", "decorator": "Decorate"}]},
+              {"parameters": {"p": 0}}, {"parameters": {"p": ""}}, {"parameters": {"p": False}}, {"parameters": {"p": None}}, {"parameters": {"p": 0.0}},
+              {"services": {"s": {"getter": ""}}}, {"services": {"s": {"type": ""}}}, {"services": {"s": {"scope": None}}}, {"services": {"s": {"fields": {"F": None, "G": 0}}}},
+              {"meta": {"pkg": ""}}, {"meta": {"imports": {"al": ""}}}, {"version": None}]:
+        out.append([a, b])
+        out.append([b, a])
+        out.append([a, {}, b, {"parameters": {"last": 1}}])
+    # chains of argument lists: the last NON-EMPTY list is the service's argument list
+    for chain in ([[2], [], [3, 4]], [[], [2], []], [[2], [3], [4]], [[], [], []], [[2, "@t"], [], []]):
+        out.append([a] + [{"services": {"s": {"arguments": c}}} for c in chain])
+        out.append([{"services": {"s": {"arguments": chain[0]}}}, a] + [{"services": {"s": {"arguments": c}}} for c in chain[1:]])
     # booleans spelled out on both sides (an explicit false is a value, not an absence), and attributes set only in the FIRST of
     # several files (they must survive later files that do not mention them)
     import copy
@@ -125,6 +138,19 @@ def run(tier, seed, replay):
     groups = []   # (kind, ordered list of (path, cfg), patterns)
     for files in overriding_pairs(r):
         groups.append(("override", [("cfg/f%d.yaml" % i, f) for i, f in enumerate(files)], ["cfg/*.yaml"]))
+    # overriding payloads under file names whose lexical order differs from numeric / case-insensitive order: the file that comes
+    # LAST in byte order of the cleaned paths wins, pattern order comes first
+    for names in (["cfg/9.yaml", "cfg/10.yaml", "cfg/1.yaml"], ["cfg/a.yaml", "cfg/B.yaml", "cfg/_.yaml"], ["cfg/x/a.yaml", "cfg/x.d/a.yaml", "cfg/x-y/a.yaml"],
+                  ["cfg/a.yaml", "cfg/a.b.yaml", "cfg/a-b.yaml", "cfg/a b.yaml"], ["cfg/\u00e9.yaml", "cfg/z.yaml", "cfg/Z.yaml"]):
+        order = sorted(names, key=lambda q: q.encode())
+        payload = lambda i: {"meta": {"pkg": "p%d" % i, "imports": {"al": "example.com/v%d" % i}}, "parameters": {"p": i, "only%d" % i: i},
+                             "services": {"s": {"constructor": "New%d" % i, "arguments": [i], "calls": [["C%d" % i]], "tags": ["t%d" % i], "fields": {"F": i, "G%d" % i: i}}},
+                             "decorators": [{"tag": "t%d" % i, "decorator": "D%d" % i}]}
+        depth = len(names[0].split("/"))
+        pat = "cfg/*.yaml" if depth == 2 else "cfg/*/a.yaml"
+        groups.append(("override-lexical", [(nm, payload(names.index(nm))) for nm in order], [pat]))
+        # the same files named by one pattern each, in the reverse of their lexical order: pattern order decides
+        groups.append(("override-pattern-order", [(nm, payload(names.index(nm))) for nm in order[::-1]], [nm.replace("[", "\\[") for nm in order[::-1]]))
     n = 80 if tier == "quick" else 1500
     for k in range(n):
         rr = random.Random("%s/c09/%d" % (seed, k))
